@@ -751,6 +751,16 @@ def parse_table(F, R):
                     R.ob('C18.parse-table', 'single-level shortcut|level(%r)' % text, got == {want},
                          'a shortcut of the parser that does not split the input classifies the one-level filter %r as %s; the per-level classifier (and 4.7) require %s' % (text, sorted(got), want), root.loc(0))
             R.counts['C18.parse-table:shortcut cases'] = m2
+    # the text entry point (`"..".parse::<TopicFilter>()`) hands its argument to the same parser unchanged: every character of a
+    # filter is significant (4.7.3), so nothing but the &str -> ByteString conversion may sit between the two
+    fs = F.find(r'^<topic::TopicFilter as std::str::FromStr>::from_str$')
+    for fb in fs:
+        for bi, t in fb.calls_to(r'TryFrom<ntex_bytes::ByteString>>::try_from$|topic::TopicFilter as std::convert::TryFrom'):
+            og = Origin(fb).of_operand(t['args'][0])
+            extra = sorted({(l[1] or '').split('::')[-1] for l in og if l[0] == 'call' and not re.search(r'::(into|from|to_owned|to_string|clone|as_ref|borrow|deref)$', l[1] or '')})
+            R.ob('C18.parse-table', 'from_str|argument-parsed-verbatim', not extra and any(l[0] == 'arg' and l[1] == 1 for l in og),
+                 'FromStr edits the text before parsing it (%s): filters that differ in those characters are conflated, and parse / Display no longer round-trip' % ', '.join(extra), fb.loc(bi))
+    R.floor('C18.parse-table', 'FromStr entry point', len(fs), 1)
     # wiring of the whole conversion: empty input refused, levels are the '/'-separated pieces numbered from 0, structural validation last
     calls = {bi: callee_name(t) or '' for bi, t in root.calls()}
     split = [(bi, t) for bi, t in root.calls() if re.search(r'<impl str>::split$', callee_name(t) or '')]
